@@ -225,7 +225,12 @@ def check_pm(case):
             x2, y2 = fn(e0, e1, Angle(lon), Angle(lat), Angle(mra * ARCSEC), Angle(mdec * ARCSEC))
             if x1._deg != x2._deg or y1._deg != y2._deg:
                 out.append(("pm_forms", "proper motion as float and as Angle give different results", None))
-            xs, ys = fn(e0, e1, Angle(lon + mra * ARCSEC * years), Angle(lat + mdec * ARCSEC * years))
+            # the linearly displaced start, brought back onto the sphere by the harness when the proper
+            # motion carries the star over a pole (latitude beyond +-90)
+            dl, db = lon + mra * ARCSEC * years, lat + mdec * ARCSEC * years
+            if abs(db) > 90.0:
+                dl, db = dl + 180.0, math.copysign(180.0, db) - db
+            xs, ys = fn(e0, e1, Angle(dl), Angle(db))
             s = S.sep_ll(x1._deg, y1._deg, xs._deg, ys._deg)
             if s > 1e-9:
                 out.append(("pm_linear", "%s precession over %r yr with proper motion (%r, %r) arcsec/yr is "
@@ -239,6 +244,8 @@ def check_pm(case):
     for idx in (0, 1):
         if kind == "newcomb":
             break       # the FK4 polynomials are not an exact inverse pair: un-rotating leaves 1e-7..1e-6 deg
+        if abs(lat) > 89.0:
+            break       # coordinate differences are not linear next to (or across) a pole
         sd = abs(disp[2][idx] - 2 * disp[1][idx] + disp[0][idx])
         if sd > 1e-7:
             out.append(("pm_second_difference", "displacement in coordinate %d not linear in time: %r"
@@ -254,6 +261,15 @@ def pm_cases():
                 for mra in (0.0, 1.0, -1.0, 10.0, -10.0, 3.0):
                     for mdec in (0.0, 1.0, -1.0, 10.0, -10.0, -0.5):
                         out.append({"kind": kind, "lon": lon, "lat": lat, "mu_lon": mra, "mu_lat": mdec})
+        # proper motions of a milli-arcsecond per year and below (must still displace the star), and stars that
+        # their proper motion carries across a pole within the interval
+        for lon in (41.0, 200.0):
+            for lat in (-60.0, 49.2):
+                for mra, mdec in ((0.001, 0.0), (0.0, -0.001), (0.003, 0.002), (1e-4, -1e-4), (1e-5, 1e-5)):
+                    out.append({"kind": kind, "lon": lon, "lat": lat, "mu_lon": mra, "mu_lat": mdec})
+            for lat, mdec in ((89.9, 6.0), (89.95, 10.0), (-89.9, -6.0), (-89.99, -1.0), (89.9, -6.0)):
+                for mra in (0.0, 3.0):
+                    out.append({"kind": kind, "lon": lon, "lat": lat, "mu_lon": mra, "mu_lat": mdec})
     return out
 
 
@@ -314,6 +330,18 @@ def check_orb(case):
         if dev > 1e-8:
             out.append(("orb_identity", "zero interval changes the elements to (%r, %r, %r)"
                         % (i1._deg, w1._deg, o1._deg), dev))
+    # the comparison tolerance carried by the caller's Angle objects is not part of the elements
+    try:
+        ai, aw, ao = Angle(i), Angle(w), Angle(om)
+        for a in (ai, aw, ao):
+            a.set_tolerance(0.01)
+        j1, v1, p1 = orbital_equinox2equinox(e0, e1, ai, aw, ao)
+        if (j1._deg, v1._deg, p1._deg) != (i1._deg, w1._deg, o1._deg):
+            out.append(("orb_tolerance", "elements (i=%r, w=%r, node=%r) %r->%r: with the arguments' comparison tolerance "
+                        "set to 0.01 the result is (%r, %r, %r), otherwise (%r, %r, %r)"
+                        % (i, w, om, c0, c1, j1._deg, v1._deg, p1._deg, i1._deg, w1._deg, o1._deg), None))
+    except Exception as ex:
+        out.append(("orb_exception", "call with coarse-tolerance Angles raised %r" % ex, None))
     # the orbit pole must move like a star: rigid rotation of the orbital plane
     try:
         pl, pb = precession_ecliptical(e0, e1, Angle(om - 90.0), Angle(90.0 - i))
@@ -329,7 +357,7 @@ def check_orb(case):
 def orb_cases():
     out = []
     for c0, c1 in itertools.product([0.0, -0.5, 1.0, -2.0, 0.2884], repeat=2):
-        for i in (0.0, 1e-9, 0.5, 1.5, 47.122, 89.0, 90.0, 120.0, 162.0, 11.94524, 179.9999999, 180.0):
+        for i in (0.0, 1e-9, 0.004, 0.5, 1.5, 47.122, 89.0, 90.0, 120.0, 162.0, 11.94524, 179.9999999, 180.0):
             for w in (0.0, 45.7481, 151.4486, 300.0):
                 for om in (0.0, 45.7481, 151.4486, 300.0, 334.75006):
                     out.append({"c0": c0, "c1": c1, "i": i, "arg": w, "node": om})
